@@ -262,3 +262,67 @@ def _reaching(succ, target):
 
 def _chr(x):
     return ("'%s'" % chr(x)) if 32 < x < 127 else str(x)
+
+
+def run_narrow(prog, rule="R-NARROW", floor=3):
+    """an int selector is examined before it is narrowed.  The public functions take selector letters as `int`; the batch routines
+    they delegate to take `char`.  A store of an int parameter into char storage (a char local, an element of a char array) keeps the
+    low byte only, so every validator behind it sees a legal letter for 'E' + 256: the store must be dominated by a comparison of the
+    int parameter itself with a constant (the rejecting test of the wide value)."""
+    res = RuleResult(rule, "every store of an int parameter of a public function into char storage is dominated by a comparison of the int "
+                           "parameter itself with a constant")
+    n = 0
+    for f, pidx in api_functions(prog, "mpq_"):
+        if f.live is None:
+            continue
+        stores = []
+        for b, i, e in f.elements():
+            if e[0] != "A" or e[1][1] != "=":
+                continue
+            r = strip(e[1][3])
+            if not (is_var(r) and isinstance(r[1], str) and r[1].startswith("p")):
+                continue
+            k = int(r[1][1:])
+            if k >= len(f.params) or f.params[k][1].strip() != "int":
+                continue
+            l = strip(e[1][2])
+            lt = None
+            if is_var(l):
+                lt = f.var_type(l)
+            elif isinstance(l, list) and l and l[0] == "i" and is_var(l[1]):
+                lt = f.var_type(l[1])
+            if lt is None or not lt.replace("const ", "").strip().startswith("char") or "*" in lt and not is_var(l) and False:
+                continue
+            if lt.strip().startswith("char *") and is_var(l):
+                continue
+            stores.append((b["id"], i, e, r[2]))
+        if not stores:
+            continue
+        dom, succ = dominators(prog, f)
+        for (bid, i, e, pname) in stores:
+            n += 1
+            res.obligations += 1
+            res.nontrivial += 1
+            ok = False
+            for d in f.live:
+                if d == bid or d not in dom.get(bid, ()):
+                    continue
+                c = f.blocks[d].get("c")
+                if c is None:
+                    continue
+                if f.blocks[d].get("t") == "SwitchStmt" and is_var(c, name=pname):
+                    ok = True
+                for nd in walk(c):
+                    if isinstance(nd, list) and nd and nd[0] == "b" and nd[1] in ("==", "!=", "<", ">", "<=", ">="):
+                        for a, b_ in ((nd[2], nd[3]), (nd[3], nd[2])):
+                            if is_var(a, name=pname) and const_of(b_) is not None:
+                                ok = True
+            if ok:
+                res.sample({"site": "%s %s: %s" % (short_loc(e[2]), f.name, show(e[1])[:50]), "verdict": "the int parameter is compared with constants first"}, limit=8)
+            else:
+                res.violations.append(Violation(rule, "%s|%s narrowed to char unexamined" % (f.name.replace("mpq_", ""), pname), f.name, short_loc(e[2]),
+                                                "%s stores the int parameter %s into char storage and no comparison of %s itself with a constant dominates the store: "
+                                                "the validators behind it see the low byte only ('E' + 256 passes for 'E')" % (show(e[1])[:60], pname, pname)))
+    res.counts["narrowing_stores_of_int_parameters"] = n
+    res.floor("narrowing stores of int parameters in public functions", n, floor)
+    return res
